@@ -37,7 +37,11 @@ Fixpoint pack_bits (l : list bool) : bytes :=
       [128 * b2n b7 + 64 * b2n b6 + 32 * b2n b5 + 16 * b2n b4 + 8 * b2n b3 + 4 * b2n b2 + 2 * b2n b1]
   end.
 
-Definition utf16 (name : str) : bytes := flat_map (fun c => [c mod 256; c / 256]) name ++ [0; 0].
+(* UTF-16 code units of a code point; name.encode("utf-16-le") + terminator *)
+Definition units_of (c : N) : list N :=
+  if c <? 65536 then [c] else [55296 + (c - 65536) / 1024; 56320 + (c - 65536) mod 1024].
+Definition utf16u (units : list N) : bytes := flat_map (fun u => [u mod 256; u / 256]) units ++ [0; 0].
+Definition utf16 (name : str) : bytes := utf16u (flat_map units_of name).
 
 (* one coder: flags = len(id) | 0x20 when it has properties *)
 Definition ser_coder (c : coder) : bytes :=
@@ -91,9 +95,14 @@ Definition ser_header (h : header) (crcs emptyfile : option bytes) (with_attrs :
   [1] ++ ser_streams h crcs ++ ser_files (h_files h) emptyfile with_attrs ++ [0].
 
 (* write_archive (plain header): 32-byte start header, pack area, end header *)
+Definition sig_tail (crc32 : bytes -> N) (area hb : bytes) : bytes :=
+  le_bytes 8 (lenN area) ++ le_bytes 8 (lenN hb) ++ le_bytes 4 (crc32 hb).
 Definition archive_bytes (crc32 : bytes -> N) (area hb : bytes) : bytes :=
-  let tail := le_bytes 8 (lenN area) ++ le_bytes 8 (lenN hb) ++ le_bytes 4 (crc32 hb) in
-  MAGIC7 ++ [0; 4] ++ le_bytes 4 (crc32 tail) ++ tail ++ area ++ hb.
+  MAGIC7 ++ [0; 4] ++ le_bytes 4 (crc32 (sig_tail crc32 area hb)) ++ sig_tail crc32 area hb ++ area ++ hb.
+
+(* sizes fit their 64-bit fields and the crc32 oracle returns 32-bit values on the two strings it is asked about *)
+Definition wf_archive (crc32 : bytes -> N) (area hb : bytes) : bool :=
+  (lenN area <? 2 ^ 64) && (lenN hb <? 2 ^ 64) && (crc32 hb <? 2 ^ 32) && (crc32 (sig_tail crc32 area hb) <? 2 ^ 32).
 
 (* ------------------------------------------------------------------ well-formedness of a header description
    (what the writer can serialise and the reader reads back) *)
@@ -117,9 +126,13 @@ Definition wf_ss (fl : list folder) (ss : substreams) (crcs : option bytes) : bo
   && match ss_sizes ss with Some raw => forallb num_ok raw && sizes_exact fl nus raw | None => true end
   && match crcs with Some c => lenN c =? 4 * sumN nus | None => true end.
 
-Definition wf_name (n : str) : bool := forallb (fun c => (0 <? c) && (c <? 65536)) n.
+(* a name the writer can encode: code points 1..10FFFF, no surrogate code points *)
+Definition wf_name (n : str) : bool :=
+  forallb (fun c => (0 <? c) && (c <? 1114112) && negb ((55296 <=? c) && (c <=? 57343))) n.
+Definition wf_units (us : list N) : bool := forallb (fun u => (0 <? u) && (u <? 65536)) us.
 Definition wf_files (fs : list fentry) (emptyfile : option bytes) (with_attrs : bool) : bool :=
   num_ok (lenN fs) && forallb (fun f => wf_name (e_name f)) fs
+  && num_ok (lenN (pack_bits (map e_empty fs)))
   && num_ok (lenN (0 :: flat_map (fun f => utf16 (e_name f)) fs))
   && match emptyfile with Some v => num_ok (lenN v) | None => true end
   && (if with_attrs then forallb (fun f => e_attr f <? 2 ^ 32) fs && num_ok (lenN (1 :: flat_map (fun f => le_bytes 4 (e_attr f)) fs))
